@@ -360,7 +360,7 @@ def check_refusal(case):
 
 SUBCHECKS = [
     SubCheck("equations_and_laws", check_derive, "six fields of private and public derivation vs BIP32 model; split/neuter/crack laws; non-trivial: depth>=2 or an index on a 2^31 boundary", lambda: derive_case(12), quick=900, thorough=8000),
-    SubCheck("deep_paths", check_derive, "same with paths up to depth 255", lambda: derive_case(255), quick=24, thorough=600, shards=8),
+    SubCheck("deep_paths", check_derive, "same with paths up to depth 255", lambda: derive_case(255), quick=24, thorough=240, shards=8),
     SubCheck("invalid_child", check_invalid, "HMAC output forced to left>=n / zero child key / child at infinity at a generated step: must raise, never answer; non-trivial: all", invalid_case, quick=600, thorough=6000),
     SubCheck("account_range", check_account, "derive_from_account_range_ == element-wise derive", account_case, quick=300, thorough=3000),
     SubCheck("refusals", check_refusal, "documented refusals: depth>255, index outside 0..2^32-1, seed size, ragged byte path, foreign forced version", refusal_case, quick=100, thorough=600),
